@@ -17,10 +17,10 @@ def pick(rnd, i):
     return case, make, ""
 
 
-CHECK = ComponentCheck("C17", pick, tiers={"quick": (48, 400), "thorough": (1200, 1200)})
+CHECK = ComponentCheck("C17", pick, tiers={"quick": (48, 400), "thorough": (1200, 1200)}, embedded=(("Forwarder", "Pipe"), ("zipper", "collector", "pipeline")))
 shards, run_shard = CHECK.shards, CHECK.run_shard
-RULE = ("histories = hostile random read/peek/write/clear sequences on Forwarder and Pipe; readiness equations are evaluated with the *observed* "
+RULE = ("[plus a second workload: Forwarder / Pipe instances embedded in ArgumentsToResultsZipper, Collector and PipelineBuilder pipelines, watched passively (vf/passive.py) against the same reference model: readiness, results and state registers every cycle, conditions embedded:*] histories = hostile random read/peek/write/clear sequences on Forwarder and Pipe; readiness equations are evaluated with the *observed* "
         "same-cycle run of the other method; non-trivial distinct case = (component, set of >=2 simultaneously executed methods, buffer full/empty); "
         "the control space (16 enable combinations x 2 buffer states x 2 components) is finite and its coverage is reported in distinct_states")
 ASSUMPTIONS = ["pysim execution"]
-MINIMA = {"quick": {"cycles": 5000, "calls:read": 1000, "calls:write": 1000, "calls:clear": 50, "distinct": 12}, "thorough": {"cycles": 300000, "distinct": 14}}
+MINIMA = {"quick": {"embedded_Pipe_cycles": 2000, "cycles": 5000, "calls:read": 1000, "calls:write": 1000, "calls:clear": 50, "distinct": 12}, "thorough": {"cycles": 300000, "distinct": 14}}
